@@ -355,6 +355,34 @@ def _bounded(ct, tier, seed):
                      {'lens': lname, 'ray': j})
         except Exception:
             pass
+        # the same with polarization tracking and Fresnel coatings: a bundle that contains the exactly axial ray (normal incidence
+        # everywhere, the plane of incidence is undefined for it alone) next to oblique rays
+        try:
+            from optiland.rays.polarization_state import create_polarization
+            LP = mk()
+            LP.set_polarization(create_polarization('V'))
+            LP.surface_group.set_fresnel_coatings()
+            pw_ = float(LP.primary_wavelength)
+
+            class _Pts:
+                pass
+            pts = _Pts()
+            pts.x, pts.y = np.array([0.0, 0.3, -0.4, 0.0]), np.array([0.0, -0.2, 0.5, 0.9])
+            for (hx_, hy_) in ((0.0, 0.0), (0.0, 0.7)):
+                rb = LP.trace(hx_, hy_, pw_, distribution=pts)
+                ib, pb = np.array(rb.i, dtype=float).copy(), np.array(rb.p).copy()
+                for j in range(4):
+                    one = _Pts()
+                    one.x, one.y = pts.x[j:j + 1].copy(), pts.y[j:j + 1].copy()
+                    r1 = LP.trace(hx_, hy_, pw_, distribution=one)
+                    ok = bool(np.allclose(r1.i[0], ib[j], rtol=0, atol=1e-9, equal_nan=True)) and \
+                        bool(np.allclose(np.array(r1.p)[0], pb[j], rtol=0, atol=1e-9, equal_nan=True))
+                    cases += 1
+                    note('C13.runtime.per_ray_independence_with_polarization', ok,
+                         'ray %d (Px=%s, Py=%s) of a polarized bundle at field (%s, %s) differs when traced alone on %s: intensity %r vs %r'
+                         % (j, pts.x[j], pts.y[j], hx_, hy_, lname, float(r1.i[0]), float(ib[j])), {'lens': lname, 'ray': j, 'Hy': hy_})
+        except Exception:
+            pass
     # static call graph covers the traced executions
     funcs, by_name, classes = frames.load(repo)
     static_edges = set()
